@@ -143,7 +143,11 @@ func TestVerifReplayC06(t *testing.T) {
 	tk := task.FromCommands(cs...)
 	tk.Name = "t"
 	for v := 0; v < nv; v++ {
-		tk.Variations = append(tk.Variations, map[string]string{"V": fmt.Sprint(v)})
+		val, _ := sc.Inputs[fmt.Sprintf("variation.%d.V", v)].(string)
+		if val == "" {
+			val = "x"
+		}
+		tk.Variations = append(tk.Variations, map[string]string{"V": val})
 	}
 	for _, b := range befores {
 		tk.Before = append(tk.Before, mk(b, broken[b]))
